@@ -14,6 +14,7 @@ import (
 	"sort"
 	"strings"
 	"sync"
+	"testing/synctest"
 	"time"
 
 	"github.com/prometheus/client_golang/prometheus"
@@ -46,9 +47,10 @@ const (
 	mRecoverable
 	mUnrecoverable
 	mHang // blocks hangFor, then succeeds (or fails with ctx error if the flush deadline comes first)
+	mSlow // takes hangFor and then succeeds even if the context ended meanwhile (the request had already gone out)
 )
 
-func (m fMode) String() string { return [...]string{"ok", "recoverable", "unrecoverable", "hang"}[m] }
+func (m fMode) String() string { return [...]string{"ok", "recoverable", "unrecoverable", "hang", "slow"}[m] }
 
 type fAlertObs struct {
 	Name     string `json:"n"`
@@ -188,6 +190,8 @@ func (n *fNotifier) Notify(ctx context.Context, alerts ...*alert.Alert) (bool, e
 		retry, err = true, fmt.Errorf("scripted recoverable failure")
 	case mUnrecoverable:
 		retry, err = false, fmt.Errorf("scripted unrecoverable failure")
+	case mSlow:
+		time.Sleep(e.hangFor)
 	case mHang:
 		t := time.NewTimer(e.hangFor)
 		select {
@@ -287,7 +291,13 @@ func newFApp(dir, yaml string, env *fEnv, fo fOpts) (*fApp, error) {
 	return &fApp{a: a, env: env, dir: dir, opts: o}, nil
 }
 
-func (f *fApp) stop() { _ = f.a.Stop(context.Background()) }
+// stop shuts the instance down and lets deliveries that ignore cancellation run out: the bubble's clock
+// stops when its main goroutine returns, so anything still sleeping then would count as a deadlock.
+func (f *fApp) stop() {
+	_ = f.a.Stop(context.Background())
+	time.Sleep(f.env.hangFor + 2*time.Second)
+	synctest.Wait()
+}
 
 // reload re-reads the config file (optionally rewriting it first).
 func (f *fApp) reload(yaml string) error {
